@@ -1,4 +1,4 @@
 SPECIFICATION Spec
 CONSTANTS Clients = {1, 2}  MaxTxn = 4  CommitVariant = "own"  StableVariant = "own"
-INVARIANT Promise
+INVARIANTS Promise Whole
 CHECK_DEADLOCK FALSE
